@@ -5,7 +5,8 @@
 //	a group is one token or several tokens joined by `|` (run concurrently from separate
 //	goroutines released by one barrier):  L<i> latch i Lock, U<i> latch i Unlock,
 //	C checkProtocols, A compute (register one more worker), W (alone) every running worker does
-//	one iteration, O (alone) two overlapping checkProtocols calls around a Lock of latch 0.
+//	one iteration, K<i> (alone) 2560 Lock calls on latch i from 64 goroutines, then 2560 Unlock calls,
+//	O (alone) two overlapping checkProtocols calls around a Lock of latch 0.
 //
 // Obs line: one entry per group, taken at quiescence after the group:
 //
@@ -164,6 +165,9 @@ func validTok(tok string, np int) bool {
 
 func exec(op string) (string, string) {
 	f := strings.Fields(op)
+	if len(f) == 2 && f[0] == "tss" {
+		return execTss(f)
+	}
 	if len(f) != 4 || f[0] != "sched" {
 		return "bad-op", "bad"
 	}
@@ -222,6 +226,35 @@ func exec(op string) (string, string) {
 			}
 			continue
 		}
+		if len(g) == 2 && g[0] == 'K' && g[1] >= '0' && g[1] <= '9' {
+			// latch counting under contention: 64 goroutines × 40 Lock calls on one latch released
+			// by a barrier, then as many Unlock calls. The latch must be back where it was and no
+			// Unlock may panic (an increment lost to a race makes the last Unlocks panic).
+			li := int(g[1] - '0')
+			if li >= np {
+				return "bad-op", "bad"
+			}
+			const gor, per = 64, 40
+			start := make(chan struct{})
+			var wg sync.WaitGroup
+			for k := 0; k < gor; k++ {
+				wg.Add(1)
+				go func() {
+					defer wg.Done()
+					<-start
+					for x := 0; x < per; x++ {
+						r.latches[li].Lock()
+					}
+				}()
+			}
+			close(start)
+			wg.Wait()
+			for x := 0; x < gor*per; x++ {
+				r.do(fmt.Sprintf("U%d", li))
+			}
+			tags["count"] = true
+			toks = nil
+		}
 		if g == "O" {
 			// overlapping checks: check A is held inside its poll of the last protocol, latch 0 is
 			// locked, check B is started; A is released when B has finished (it overtook A) or has
@@ -265,7 +298,7 @@ func exec(op string) (string, string) {
 				return "bad-op", "bad"
 			}
 		}
-		if g == "O" {
+		if toks == nil {
 		} else if len(toks) == 1 {
 			r.do(toks[0])
 		} else {
@@ -347,7 +380,7 @@ func exec(op string) (string, string) {
 		}
 	}
 	var ts []string
-	for _, t := range []string{"stop", "resume", "mixed", "par", "overlap", "overtook", "stress", "iter", "paused", "compute", "unlockpanic"} {
+	for _, t := range []string{"stop", "resume", "mixed", "par", "overlap", "overtook", "stress", "count", "iter", "paused", "compute", "unlockpanic"} {
 		if tags[t] {
 			ts = append(ts, t)
 		}
@@ -361,6 +394,10 @@ func exec(op string) (string, string) {
 func gen(r *hx.Rng, n int, tier string) []string {
 	var ops []string
 	for i := 0; i < n; i++ {
+		if i == 7 || i == 203 {
+			ops = append(ops, fmt.Sprintf("tss %d", r.Range(1, 2)))
+			continue
+		}
 		if i%25 == 24 {
 			// stress: a worker registration racing the check that stops the scheduler
 			reps := make([]string, 15)
@@ -414,7 +451,9 @@ func gen(r *hx.Rng, n int, tier string) []string {
 					}
 				}
 			}
-			if np > 0 && r.Chance(1, 10) {
+			if np > 0 && r.Chance(1, 12) {
+				groups = append(groups, fmt.Sprintf("K%d", r.Intn(np)))
+			} else if np > 0 && r.Chance(1, 10) {
 				// overlapping checks around a Lock of latch 0, then a quiescent check
 				groups = append(groups, "O")
 				held[0]++
